@@ -122,7 +122,7 @@ func init() {
 		}
 		spec := &mc.Spec{
 			Level: "exploration",
-			Rule: "every mount table of ≤ maxLen entries over 17 entry classes (bind ro/rw of directories and files, tmpfs, proc ro/rw, nested target, missing source with FilterNotExist, read-only bind whose source lies on a nosuid/noexec/nodev mount, read-only binds written by hand with only MS_BIND|MS_RDONLY, read-only binds onto a symbolic link planted inside a writable bind, a read-only bind whose source lies on a host mount with shared propagation below which the host mounts another file system once the sandbox is set up) × both implementations of the mount sequence (raw in-child via the namespace runner, in-container; the container also with a symlink and with masked file/directory paths, named directly or through a configured symbolic link, and in containers without /dev/null, with file and directory masks and with a directory mask alone); " +
+			Rule: "every mount table of ≤ maxLen entries over 17 entry classes (bind ro/rw of directories and files, tmpfs, proc ro/rw, nested target, missing source with FilterNotExist, read-only bind whose source lies on a nosuid/noexec/nodev mount, read-only binds written by hand with only MS_BIND|MS_RDONLY, read-only binds onto a symbolic link planted inside a writable bind, a read-only bind whose source lies on a host mount with shared propagation below which the host mounts another file system once the sandbox is set up) × both implementations of the mount sequence (raw in-child via the namespace runner, in-container; the container also with a symlink and with masked file/directory paths, named directly or through a configured symbolic link, and in containers without /dev/null, with file and directory masks and with a directory mask alone); plus a mask on a file below a directory whose owner / group / mode range over ids mapped and not mapped into the container (6 kinds × 3 file owners × with and without a credential generator): Build refuses, or the program finds nothing of the host there; " +
 				"a probe inside reports the root listing, read-only flags and the outcome of create / mkdir / open-for-write / truncate / chmod / rename / unlink on the root and in every mount, '..' from the root, the old root, and seven escape routes to a host canary file; the host side reads /proc/<pid>/mountinfo of the sandboxed process. Oracle: reference model of the table. " +
 				"non-trivial: the table is not empty; distinct = (implementation, table, observations)",
 			Bound:       map[string]any{"max_entries": maxLen, "escape_routes": 7},
@@ -145,7 +145,11 @@ func init() {
 			cleanupTmp()
 		}
 		spec.Body = func(x *mc.X) {
-			impl := x.Pick("implementation", "namespace-runner", "container", "container+masks", "container+masks-without-devnull", "container+masks-through-link", "container+dirmask-without-devnull")
+			impl := x.Pick("implementation", "namespace-runner", "container", "container+masks", "container+masks-without-devnull", "container+masks-through-link", "container+dirmask-without-devnull", "container: masks the init can or cannot look at")
+			if strings.HasPrefix(impl, "container: masks the init") {
+				c05maskReach(x)
+				return
+			}
 			n := x.Choose(maxLen+1, "entries")
 			var classes []c05class
 			procs := 0
